@@ -227,7 +227,9 @@ def shape_trees():
              ("node", "or", True, [cat("a")]), ("node", "or", True, [pkg("x"), cat("b")]),
              ("node", "and", True, [cat("a"), pkg("x")]), ("node", "one", False, [cat("a"), pkg("x")]),
              ("node", "amo", False, [cat("a"), cat("b")]), ("node", "or", False, []),
-             ("node", "and", False, [])]
+             ("node", "and", False, []), ("node", "or", False, [pkg("x"), pkg("xy")]),
+             ("node", "or", False, [cat("a"), cat("ab")]), ("node", "and", False, [cat("a"), pkg("xy")]),
+             ("node", "and", False, [cat("ab"), pkg("x")])]
     for a, b in itertools.product(inner + roles[:8], repeat=2):
         for kind in ("and", "or"):
             out.append(("node", kind, False, [a, b]))
@@ -368,13 +370,15 @@ def main(chk: Check):
             descs.append(("corpus", j["repos"], _untuple(j["tree"])))
     shapes = shape_trees()
     n_shapes = chk.n(400, len(shapes))
+    if os.environ.get("VERIF_C08_CAP"):
+        n_shapes = min(n_shapes, max(60, int(os.environ["VERIF_C08_CAP"])))
     if n_shapes < len(shapes):
         shapes = shapes[:60] + rng.sample(shapes[60:], n_shapes - 60)
     fixed = [{"a": {"x": [1, 2], "xy": [1]}, "ab": {"x": [3], "y": [1, 2]}, "b": {"z": [2], "yx": []}},
              {"a": {"x": [2], "y": [1]}, "ba": {"x": [1]}}]
     for i, t in enumerate(shapes):
         descs.append(("shapes", fixed[: 1 + (i % 2)], t))
-    n_random = chk.n(600, 8000)
+    n_random = chk.n(600, 6000)
     if os.environ.get("VERIF_C08_CAP"):      # self-test aid: bound the escalated budget
         n_random = min(n_random, int(os.environ["VERIF_C08_CAP"]))
     for _ in range(n_random):
@@ -460,6 +464,26 @@ def main(chk: Check):
         chk.violation("correspondence", {"what": "Spec_C08.spec_tuple_ok and the Python oracle disagree on the "
                                                  "bare-tuple answers", "coq": sorted(tup_idx)[:5],
                                          "python": len(tup_bad)}, no_input=True)
+    # a model/implementation disagreement without a failing input so far: look for one around it,
+    # asking the same restrictions of a repository holding every category/package combination
+    if model_bad and not reported:
+        full = [{c: {p: [1, 2] for p in PKGS} for c in CATS}]
+        for i in model_bad[:25]:
+            try:
+                robj, _ = make_case(m, full, meta[i]["tree"])
+            except ValueError:
+                continue
+            got = impl_call(lambda: sorted(key3(p) for p in m["SimpleTree"](
+                {c: {p: [str(v) for v in vs] for p, vs in ps.items()} for c, ps in full[0].items()}).itermatch(robj)),
+                kinds={"*": "raised"})
+            want = oracle(m, full, robj)[0]
+            if got != want:
+                reported = True
+                chk.violation("property", {"what": "plain query differs from the brute-force filter (found around a "
+                                                   "model/implementation disagreement)",
+                                           "input": {"repos": full, "tree": meta[i]["tree"]},
+                                           "got": got, "brute_force": want})
+                break
     for i in model_bad[:3]:
         chk.violation("correspondence",
                       {"what": "implementation and Model_C08.run_query disagree (theorems of Prop_C08 no longer "
